@@ -234,8 +234,27 @@ func GenC01(seed uint64) *Scenario {
 			ops = append(ops, Op{ID: g.id(), Kind: "recharge", Supi: s.supi, RG: rg, TopUp: g.r.Range(1, 500_000)})
 		}
 	}
+	ops = g.withRejectedAttempts(ops, 40)
 	g.sc.Tasks = []Task{{ID: 0, Ops: ops}}
 	return g.sc
+}
+
+// withRejectedAttempts puts, before some updates, the same request with one wrongly typed
+// member (valid JSON that the API cannot decode): the consumer is told 4xx, corrects the
+// request and sends it again.  Whatever a rejected attempt is answered, it reports nothing.
+func (g *gen) withRejectedAttempts(ops []Op, permille int) []Op {
+	var out []Op
+	for _, op := range ops {
+		if op.Kind == "update" && g.r.Chance(permille) {
+			bad := op
+			bad.ID = g.id()
+			bad.Corrupt = []string{"isn-string", "ts-number"}[g.r.Intn(2)]
+			bad.Units = append([]Unit(nil), op.Units...)
+			out = append(out, bad)
+		}
+		out = append(out, op)
+	}
+	return out
 }
 
 // usageOp builds an update/release that reports usage on a random subset of the session's groups.
@@ -375,6 +394,7 @@ func GenC06(seed uint64) *Scenario {
 		}
 		ops = append(ops, op)
 	}
+	ops = g.withRejectedAttempts(ops, 60)
 	g.sc.Tasks = []Task{{ID: 0, Ops: ops}}
 	return g.sc
 }
@@ -455,6 +475,7 @@ func GenC02(seed uint64) *Scenario {
 			s.created = false
 		}
 	}
+	ops = g.withRejectedAttempts(ops, 40)
 	g.sc.Tasks = []Task{{ID: 0, Ops: ops}}
 	return g.sc
 }
@@ -648,6 +669,13 @@ func GenC12(seed uint64) *Scenario {
 	nOps := 4 + g.r.Intn(24)
 	for len(ops) < nOps {
 		s := sess[g.r.Intn(len(sess))]
+		// a create that lacks a mandatory member (rejected) and names another notification endpoint:
+		// the subscriber's registered endpoint must stay what an accepted create made it
+		if s.created && g.r.Chance(60) {
+			ops = append(ops, Op{ID: g.id(), Kind: "create", Supi: s.supi, Sess: fmt.Sprintf("rej%d", len(ops)), Consumer: "smf-x", ChargingID: 77,
+				NotifyURI: "http://smf.sim/notify/other-endpoint", Corrupt: "no-consumer"})
+			continue
+		}
 		// invalid requests, in whatever state the system is
 		if g.r.Chance(300) {
 			kind := []string{"update", "release"}[g.r.Intn(2)]
